@@ -96,40 +96,65 @@ def guarded(ctx, rule, key, f, *a, **kw):
 
 
 def check_early_exits(ctx, modname):
-    """G1 - no unaccounted early exit.  The per-iteration obligations of the loop rules speak about iterations that
-    run to the end of the body and about loops that stop when their own test fails.  A user-written break, continue,
-    return or `?` inside a loop (taken from the HIR, desugared loop tests excluded) is a way to skip work, so each one in
-    a function this module interprets must be listed in exits.EXPECTED with the obligation that accounts for it."""
+    """G1 - no unaccounted early exit or skipped iteration.  The per-iteration obligations of the loop rules speak about
+    iterations that run to the end of the body and about loops that stop when their own test fails.  A way out of a
+    loop other than its test, or a second way back to its head, is a way to skip work.  Both are counted on the
+    canonical control-flow graph (iterator consumers lowered to loops, see lower.py and Fn.exit_profile), so the count
+    does not depend on whether the loop is written `for` / `while let` / `loop { match }` / as an iterator chain, where
+    a guard clause sits, or into which private helper a loop was moved (a helper that is not in the reference inventory
+    is counted with its callers).  The reference counts are inventory.EXIT_PROFILE; each early exit of the reference
+    tree is accounted for by a rule obligation (see exits.py).  More exits or skips than the reference is a violation."""
     from . import exits
+    from .inventory import EXIT_PROFILE, KNOWN
     pfx = modname[:3].upper()
     if os.environ.get('SMTLINT_NO_G1'):
         return
     for cfg in ('dev',):
         cr = ctx.crate(cfg)
         checked = 0
+        memo = {}
+
+        def profile(path, stack=()):
+            """own profile plus that of the helpers introduced after the reference tree that this function calls"""
+            if path in memo:
+                return memo[path]
+            f = cr.fn(path)
+            if f is None:
+                return (0, 0)
+            e, k = f.exit_profile() if f.loops() else (0, 0)
+            for _, c, *_r in f.calls():
+                n = f.callee_name(c)
+                if n and c.get('local') and n not in KNOWN and n not in stack and n != path and cr.fn(n) is not None and cr.fn(n).def_kind != 'Closure':
+                    e2, k2 = profile(n, stack + (path,))
+                    e, k = e + e2, k + k2
+            for cp, cf in cr.fns.items():
+                # closures defined in this function (bodies of lowered consumers, helpers' closures)
+                if cf.def_kind == 'Closure' and cp.startswith(path + '::{closure') and cp not in KNOWN and cf.loops():
+                    e2, k2 = cf.exit_profile()
+                    e, k = e + e2, k + k2
+            memo[path] = (e, k)
+            return memo[path]
         for path in sorted(ctx.executed | set(exits.ALSO.get(modname[:3], []))):
-            if path in exits.SEMANTIC:
+            if path in exits.SEMANTIC or path.startswith('#'):
                 continue
             f = cr.fn(path)
             if f is None and path in exits.ALSO.get(modname[:3], []):
                 ctx.unanalysable(pfx + '.G1', '%s.G1/%s/missing' % (pfx, path), path, None, None, cfg)
                 continue
-            if f is None or not f.jumps:
-                if f is not None and f.loops():
-                    checked += 1
+            if f is None or path not in KNOWN:
+                continue
+            have = profile(path)
+            if have == (0, 0) and not f.loops():
                 continue
             checked += 1
-            have = {}
-            for j in f.jumps:
-                have[j['kind']] = have.get(j['kind'], 0) + 1
-            want = exits.EXPECTED.get(path, {})
-            extra = {k: n - want.get(k, 0) for k, n in have.items() if n > want.get(k, 0)}
-            ok = not extra
+            want = EXIT_PROFILE.get(path, (0, 0))
+            ok = have[0] <= want[0] and have[1] <= want[1]
             ctx.obligation(ok)
             if ok:
-                ctx.ok(pfx + '.G1', '%s.G1/%s/early-exits-in-loops-accounted' % (pfx, path), path, f.site(), {'early_exits': have}, cfg)
+                ctx.ok(pfx + '.G1', '%s.G1/%s/early-exits-in-loops-accounted' % (pfx, path), path, f.site(), {'early_exits': have[0], 'skips': have[1]}, cfg)
             else:
                 ctx.violation(pfx + '.G1', '%s.G1/%s/unaccounted-early-exit-in-loop' % (pfx, path), path, f.site(),
-                              {'found': have, 'accounted': want, 'unaccounted': extra, 'lines': [(j['kind'], j['line']) for j in f.jumps],
-                               'why': 'a new break/continue/return inside a loop can skip elements or iterations that the per-iteration rules never see'}, cfg)
+                              {'found': {'early_exits': have[0], 'skips': have[1]}, 'reference': {'early_exits': want[0], 'skips': want[1]},
+                               'user_written_jumps': [(j['kind'], j['line']) for j in f.jumps],
+                               'why': 'a new way out of a loop (break / return / ?) or back to its head (continue) can skip elements or iterations that the per-iteration rules never see'}, cfg)
         ctx.stats['loop_functions_checked'] += checked
